@@ -150,7 +150,8 @@ def run(tier, seed):
         if mode == "rough":
             base.rough = True
             base.echo_junk = {"seed": rng.randrange(10**6), "alphabet": rng.choice(["\x08 ", "~^", " \t", "XYZ"])}
-            cmds = rng.sample(LOWER_CMDS, 2)
+            # junk precedes echoed bytes; it must not follow the last visible byte, so no trailing blanks in rough-mode inputs
+            cmds = [c.strip() for c in rng.sample(LOWER_CMDS, 2)]
             base.outputs = {c.strip(): c01.gen_output(rng, 60, cap=120) for c in cmds}
             base.ops = [("send_command", rng.choice(cmds), True, False) for _ in range(rng.randint(1, 3))]
         # reference: undecorated, whole reads
